@@ -843,6 +843,12 @@ func registerFsModels(P *Program) {
 				if flaw == 4 {
 					texts = []string{"3", "-9"}
 				}
+				if flaw == 6 { // no flaw: a key with twelve bases 3, 4, ..., 14
+					texts = nil
+					for k := 0; k < 12; k++ {
+						texts = append(texts, strconv.Itoa(3+k))
+					}
+				}
 				var um *ssa.Function
 				if pkg := ex.P.Prog.ImportedPackage(TargetModule + "/gabikeys"); pkg != nil {
 					if named := pkg.Type("Bases"); named != nil {
@@ -885,8 +891,14 @@ func registerFsModels(P *Program) {
 				for k, txt := range ex.xmlElementTexts {
 					c := ex.alloc(et)
 					for j := 0; j < est.NumFields(); j++ {
-						if est.Field(j).Name() == "Bigint" {
+						switch est.Field(j).Name() {
+						case "Bigint":
 							c.V.(*StructObj).F[j].V = txt
+						case "XMLName":
+							// the element name Base_<k>; xml.Name{Space, Local}
+							if nm, ok := c.V.(*StructObj).F[j].V.(*StructObj); ok && len(nm.F) == 2 {
+								nm.F[1].V = "Base_" + strconv.Itoa(k)
+							}
 						}
 					}
 					sl.A.E[k].V = Pointer{C: c}
